@@ -17,6 +17,12 @@ LOCKNAME = "lock"
 LOCKS_TABLE = "_LOCKS"
 LOCKS_LOCK = "_MODULE_LOCK"
 GET_LOCK = "_get_lock"
+LOCKS_MODULE = "labrea.overload"
+T_KEY = "global<labrea.runtime._RUNTIMES>"
+D_KEY = "global<labrea.runtime._DEFAULT_HANDLERS>"
+LOCK_KEY = "global<labrea.runtime.lock>"
+OWN_THREAD = "call:threading.current_thread"
+TABLE_WRITES = {"setdefault", "pop", "__setitem__", "update", "clear", "popitem", "__delitem__"}
 
 
 def _dict_vars(m) -> Dict[str, ast.expr]:
@@ -31,30 +37,101 @@ def _lock_vars(m) -> List[str]:
     return [name for name, r in m.names.items() if r[0] == "var" and isinstance(r[1], ast.Call) and ast.unparse(r[1].func).split(".")[-1] in ("Lock", "RLock")]
 
 
+def _entries_of(run: Run, m):
+    """Entry points of a module: every function or method that is not a private helper referenced from
+    inside the module (those are analysed inlined into their callers)."""
+    cands = []
+    for q, fi in run.repo.functions.items():
+        if fi.module is m:
+            cands.append((q, fi.node, None))
+    for ci in run.repo.classes.values():
+        if ci.module is m:
+            for n, fn in ci.methods.items():
+                cands.append((f"{ci.qualname}.{n}", fn, ci))
+    out = []
+    for q, fn, ci in cands:
+        short = q.rsplit(".", 1)[-1]
+        private = short.startswith("_") and not short.startswith("__")
+        if private:
+            refs = [x for x in _module_refs(m, short) if not (isinstance(x, ast.Name) and isinstance(x.ctx, ast.Store))]
+            if refs:
+                continue
+        if ci is not None and ci.name.startswith("_") and not (ci.is_subclass_of("Evaluatable") or ci.is_subclass_of("Effect")):
+            continue        # methods of a private helper class: seen through their callers
+        out.append((q, fn, ci))
+    return out
+
+
+def _paths_of(run: Run, m, fn, ci):
+    """Paths of a function of module m; methods are analysed with their class so that private methods they
+    call through self are inlined."""
+    key = ("paths_of", m.name, id(fn))
+    if key in run._rule_cache:
+        return run._rule_cache[key]
+    from .interp import analyse_function
+    decos = [ast.unparse(d) for d in fn.decorator_list]
+    if ci is not None and "staticmethod" not in decos and "classmethod" not in decos:
+        ps = analyse_function(Ctx(run.repo), m, fn, cls=ci)
+    else:
+        ps = analyse_function(Ctx(run.repo), m, fn)
+    run._rule_cache[key] = ps
+    return ps
+
+
+def _table_events(p, tkey: str):
+    """(event, method, key term, stored value or None, is-write) for every access of the module-level table."""
+    for e in p.events:
+        if e.kind == "call" and e.target is not None and e.target.key() == tkey:
+            key = e.args[0] if e.args else None
+            val = e.args[1] if e.text in ("setdefault", "__setitem__") and len(e.args) > 1 else None
+            yield e, e.text, key, val, e.text in TABLE_WRITES
+        elif e.kind in ("store", "delete") and len(e.args) == 2 and e.args[0].key() == tkey:
+            idx = e.args[1]
+            key = idx.args[0] if getattr(idx, "head", "") == "index" and idx.args else None
+            yield e, "__setitem__" if e.kind == "store" else "__delitem__", key, e.target if e.kind == "store" else None, True
+        elif e.kind == "call" and e.text in ("len", "list", "dict", "iter", "sorted") and any(a.key() == tkey for a in e.args):
+            yield e, e.text, None, None, False
+
+
+def _find_lock_registry(run: Run):
+    """The registry of per-object locks, found by its role: a module-level dictionary, next to a module-level
+    lock, that some function of the same module fills with new threading locks."""
+    hits = []
+    for m in run.repo.modules.values():
+        if m.name == "labrea.runtime":
+            continue
+        dicts, locks = _dict_vars(m), _lock_vars(m)
+        if not dicts or not locks:
+            continue
+        for q, fi in run.repo.functions.items():
+            if fi.module is not m:
+                continue
+            names = {x.id for x in ast.walk(fi.node) if isinstance(x, ast.Name)}
+            makes_lock = any(isinstance(x, ast.Call) and ast.unparse(x.func).split(".")[-1] in ("Lock", "RLock") for x in ast.walk(fi.node))
+            for d in dicts:
+                if d in names and makes_lock:
+                    hits.append((m, d, locks[0] if len(locks) == 1 else None, fi.node.name))
+    return hits
+
+
 def _bind_names(run: Run) -> None:
     """Find the shared tables and locks by what they are used for, not by what they are called:
-    the thread -> runtime table is the module-level dictionary of runtime.py that is indexed by
+    the thread -> runtime table is the module-level dictionary of runtime.py that some path indexes by
     threading.current_thread(); the default-handler table the other one; the module lock the
-    module-level threading lock.  Likewise the lock registry of overload.py."""
-    global TABLE, DEFAULTS, LOCKNAME, T_KEY, D_KEY, LOCK_KEY, LOCKS_TABLE, LOCKS_LOCK, GET_LOCK
+    module-level threading lock.  Likewise the lock registry (wherever it lives)."""
+    global TABLE, DEFAULTS, LOCKNAME, T_KEY, D_KEY, LOCK_KEY, LOCKS_TABLE, LOCKS_LOCK, GET_LOCK, LOCKS_MODULE
     m = run.repo.modules.get("labrea.runtime")
     if m is None:
         raise AnalysisError("labrea/runtime.py not found")
     dicts = _dict_vars(m)
     thread_tabs = []
+    entries = _entries_of(run, m)
     for name in dicts:
-        for fn_m, cls, fn, q in iter_functions(run.repo):
-            if fn_m is not m:
-                continue
-            tn = _thread_names(fn)
-            for x in ast.walk(fn):
-                key = None
-                if isinstance(x, ast.Subscript) and isinstance(x.value, ast.Name) and x.value.id == name:
-                    key = x.slice
-                elif isinstance(x, ast.Call) and isinstance(x.func, ast.Attribute) and isinstance(x.func.value, ast.Name) and x.func.value.id == name and x.args:
-                    key = x.args[0]
-                if key is not None and (ast.unparse(key).endswith("current_thread()") or (isinstance(key, ast.Name) and key.id in tn)):
-                    if name not in thread_tabs:
+        tkey = f"global<labrea.runtime.{name}>"
+        for q, fn, ci in entries:
+            for p in _paths_of(run, m, fn, ci):
+                for e, meth, key, val, wr in _table_events(p, tkey):
+                    if key is not None and key.key() == OWN_THREAD and name not in thread_tabs:
                         thread_tabs.append(name)
     if len(thread_tabs) != 1:
         raise AnalysisError(f"labrea/runtime.py: expected exactly one module-level dictionary indexed by the current thread, found {thread_tabs}")
@@ -70,17 +147,9 @@ def _bind_names(run: Run) -> None:
     T_KEY = f"global<labrea.runtime.{TABLE}>"
     D_KEY = f"global<labrea.runtime.{DEFAULTS}>"
     LOCK_KEY = f"global<labrea.runtime.{LOCKNAME}>"
-    om = run.repo.modules.get("labrea.overload")
-    if om is not None:
-        od = list(_dict_vars(om))
-        ol = _lock_vars(om)
-        if len(od) == 1:
-            LOCKS_TABLE = od[0]
-        if len(ol) == 1:
-            LOCKS_LOCK = ol[0]
-        for q, fi in run.repo.functions.items():
-            if fi.module is om and any(isinstance(x, ast.Name) and x.id == LOCKS_TABLE for x in ast.walk(fi.node)):
-                GET_LOCK = fi.node.name
+    reg = _find_lock_registry(run)
+    if len(reg) == 1 and reg[0][2] is not None:
+        LOCKS_MODULE, LOCKS_TABLE, LOCKS_LOCK, GET_LOCK = reg[0][0].name, reg[0][1], reg[0][2], reg[0][3]
 
 
 def _rt(run: Run):
@@ -129,10 +198,6 @@ def _reads_table(e: ast.AST) -> bool:
 
 
 
-T_KEY = "global<labrea.runtime._RUNTIMES>"
-LOCK_KEY = "global<labrea.runtime.lock>"
-OWN_THREAD = "call:threading.current_thread"
-TABLE_WRITES = {"setdefault", "pop", "__setitem__", "update", "clear", "popitem", "__delitem__"}
 
 
 class Access:
@@ -206,9 +271,10 @@ def _accesses(run: Run) -> List[Access]:
     return out
 
 
-def _owner_of(run: Run, line: int, default: str) -> str:
-    """Qualified name of the innermost function of labrea/runtime.py containing the line."""
-    m, _ = _rt(run)
+def _owner_of(run: Run, line: int, default: str, m=None) -> str:
+    """Qualified name of the innermost function of the module (default labrea/runtime.py) containing the line."""
+    if m is None:
+        m, _ = _rt(run)
     best = None
     for mm, cls, fn, q in iter_functions(run.repo):
         if mm is m and fn.lineno <= line <= (fn.end_lineno or fn.lineno):
@@ -595,98 +661,90 @@ def rule_LS(run: Run) -> RuleResult:
     repo = run.repo
     m, rt = _rt(run)
     nec = "shared tables are accessed only under their lock (C15)"
+    # every access of the thread -> runtime table (and every write of the default-handler table), on every path
+    # of every entry point with private helpers and helper classes inlined, happens while the module lock is held:
+    # inside ``with lock:``, between lock.acquire() and lock.release(), or inside a context manager whose
+    # __enter__ takes the lock and whose __exit__ releases it
+    seen: Dict[tuple, list] = {}
+    for q, fn, ci in _entries_of(run, m):
+        for p in _paths_of(run, m, fn, ci):
+            for e, meth, key, val, wr in _table_events(p, T_KEY):
+                o = _owner_of(run, e.line, q)
+                s = seen.setdefault((o, e.line, TABLE, "access to"), [True, ()])
+                s[0] = s[0] and LOCK_KEY in e.held
+                s[1] = e.held
+            for e, meth, key, val, wr in _table_events(p, D_KEY):
+                if wr:
+                    o = _owner_of(run, e.line, q)
+                    s = seen.setdefault((o, e.line, DEFAULTS, "write to"), [True, ()])
+                    s[0] = s[0] and LOCK_KEY in e.held
+                    s[1] = e.held
     n_tab = 0
-    fns = [(fn, q) for mm, cls, fn, q in iter_functions(repo) if mm is m]
-
-    def callers_hold_lock(q: str, seen=()) -> Optional[bool]:
-        """True when the private helper q is only ever called with the module lock held."""
-        short = q.rsplit(".", 1)[-1]
-        if not short.startswith("_") or short.startswith("__") or q in seen:
-            return False
-        refs = [r for r in _module_refs(m, short) if not (isinstance(r, ast.Name) and isinstance(r.ctx, ast.Store))]
-        sites = 0
-        for fn2, q2 in fns:
-            held2 = _with_stack(fn2)
-            for c in astu.calls_in(fn2):
-                if astu.short_name(c) == short and c.func in refs:
-                    sites += 1
-                    if LOCKNAME not in held2.get(id(c), []) and not callers_hold_lock(q2, seen + (q,)):
-                        return False
-        return sites > 0 and sites == len(refs)
-
-    for fn, q in fns:
-        held = _with_stack(fn)
-        helper_ok = None
-        for x in astu.walk_no_nested(fn):
-            if isinstance(x, ast.Name) and x.id == TABLE:
-                n_tab += 1
-                ok = LOCKNAME in held.get(id(x), [])
-                how = f"held: {held.get(id(x), [])}"
-                if not ok:
-                    if helper_ok is None:
-                        helper_ok = bool(callers_hold_lock(q))
-                    ok = helper_ok
-                    how = "private helper, every call site holds the lock" if ok else how
-                res.add(f"{q}:access to {TABLE} under lock", ok, m.relpath, x.lineno, how, nec)
-            if isinstance(x, ast.Name) and x.id == DEFAULTS and isinstance(x.ctx, ast.Load):
-                # writes only: subscript store / mutators
-                pm = astu.parent_map(fn)
-                par = pm.get(id(x))
-                is_write = (isinstance(par, ast.Subscript) and isinstance(par.ctx, (ast.Store, ast.Del))) or \
-                    (isinstance(par, ast.Attribute) and par.attr in MUT)
-                if is_write:
-                    ok = LOCKNAME in held.get(id(x), []) or bool(callers_hold_lock(q))
-                    res.add(f"{q}:write to {DEFAULTS} under lock", ok, m.relpath, x.lineno, f"held: {held.get(id(x), [])}", nec)
+    for (o, line, tab, what), (ok, held) in sorted(seen.items()):
+        n_tab += tab == TABLE
+        res.add(f"{o}:{what} {tab} under lock", ok, m.relpath, line, f"held: {list(held)}", nec)
     if n_tab < 5:
         raise AnalysisError(f"only {n_tab} accesses of {TABLE} found (6 confirmed by hand)")
     lockdef = m.names.get(LOCKNAME)
     ok = lockdef is not None and lockdef[0] == "var" and ast.unparse(lockdef[1]).startswith("threading.") and "Lock" in ast.unparse(lockdef[1])
     res.add("labrea.runtime.lock:is a threading lock", ok, m.relpath, 1, ast.unparse(lockdef[1]) if lockdef else "missing", nec)
-    # overload module
-    om = repo.modules.get("labrea.overload")
+    # the registry of per-object locks
+    om = repo.modules.get(LOCKS_MODULE)
     ov = repo.cls("Overloaded")
+    if om is None:
+        raise AnalysisError(f"lock registry module {LOCKS_MODULE} not found")
+    L_KEY = f"global<{LOCKS_MODULE}.{LOCKS_TABLE}>"
+    LL_KEY = f"global<{LOCKS_MODULE}.{LOCKS_LOCK}>"
+    seen = {}
+    for q, fn, ci in _entries_of(run, om) + [(q_, fi_.node, None) for q_, fi_ in repo.functions.items() if fi_.module is om and fi_.node.name == GET_LOCK]:
+        for p in _paths_of(run, om, fn, ci):
+            for e, meth, key, val, wr in _table_events(p, L_KEY):
+                s = seen.setdefault((_owner_of(run, e.line, q, om), e.line), [True, ()])
+                s[0] = s[0] and LL_KEY in e.held
+                s[1] = e.held
+    for (o, line), (ok, held) in sorted(seen.items()):
+        res.add(f"{o}:access to {LOCKS_TABLE} under {LOCKS_LOCK}", ok, om.relpath, line, f"held: {list(held)}", nec)
+    if not seen:
+        raise AnalysisError(f"no access of the lock registry {LOCKS_TABLE} found (anchor vanished)")
+    # the overload table of an Overloaded object is replaced only while its own lock is held
     from .rules_switch import _lock_attrs
-    ov_locks = {f"self.{a}" for a in _lock_attrs(repo, ov)} or {"self._lock"}
-    for mm, cls, fn, q in iter_functions(repo):
-        if mm is not om:
+    from .interp import SELF
+    ov_held = {f"Child({a})" for a in _lock_attrs(repo, ov)} or {"Child(_lock)"}
+    ovm = ov.module
+    for mn, fn in ov.methods.items():
+        if mn in ("__init__", "__setstate__", "evaluate", "validate", "keys", "explain"):
             continue
-        held = _with_stack(fn)
-        for x in astu.walk_no_nested(fn):
-            if isinstance(x, ast.Name) and x.id == LOCKS_TABLE:
-                ok = LOCKS_LOCK in held.get(id(x), [])
-                res.add(f"{q}:access to {LOCKS_TABLE} under {LOCKS_LOCK}", ok, om.relpath, x.lineno, f"held: {held.get(id(x), [])}", nec)
-    for mm, cls, fn, q in iter_functions(repo):
-        if cls is None:
+        if any(ast.unparse(d) in ("property", "staticmethod", "classmethod") for d in fn.decorator_list):
             continue
-        held = _with_stack(fn)
-        for s in astu.walk_no_nested(fn):
-            if isinstance(s, (ast.Assign, ast.AugAssign)):
-                tgts = s.targets if isinstance(s, ast.Assign) else [s.target]
-                for t in tgts:
-                    base = t.value if isinstance(t, ast.Subscript) else t
-                    if isinstance(base, ast.Attribute) and base.attr == "lookup" and isinstance(base.value, ast.Name) and base.value.id == "self" and cls.name == "Overloaded":
-                        if fn.name in ("__init__", "__setstate__"):
-                            continue
-                        ok = any(h_ in held.get(id(s), []) for h_ in ov_locks)
-                        res.add(f"{q}:write to Overloaded.lookup under self._lock", ok, mm.relpath, s.lineno, f"held: {held.get(id(s), [])}", nec)
+        for p in analyse_method(Ctx(repo), ov, mn):
+            for e in p.events:
+                if e.kind in ("store", "delete") and len(e.args) == 2 and (
+                        (e.args[0].key() == SELF.key() and e.args[1].key() == "Const('lookup')") or e.args[0].key() == "Child(lookup)"):
+                    ok = any(h_ in e.held for h_ in ov_held)
+                    res.add(f"{ov.qualname}.{mn}:write to Overloaded.lookup under self._lock", ok, ovm.relpath, e.line, f"held: {list(e.held)}", nec)
+                if e.kind == "call" and e.text in MUT and e.target is not None and e.target.key() == "Child(lookup)":
+                    ok = any(h_ in e.held for h_ in ov_held)
+                    res.add(f"{ov.qualname}.{mn}:write to Overloaded.lookup under self._lock", ok, ovm.relpath, e.line, f"held: {list(e.held)} ({e.text})", nec)
     reg = ov.methods.get("register")
     if reg is None:
         raise AnalysisError("Overloaded.register not found")
     held_r = _with_stack(reg)
+    ov_locks = {f"self.{a}" for a in _lock_attrs(repo, ov)} or {"self._lock"}
     for x in astu.walk_no_nested(reg):
         if isinstance(x, ast.Attribute) and x.attr == "lookup" and isinstance(x.value, ast.Name) and x.value.id == "self" and isinstance(x.ctx, ast.Load):
             ok = any(h_ in held_r.get(id(x), []) for h_ in ov_locks)
-            res.add("labrea.overload.Overloaded.register:read of the table it replaces is under self._lock", ok, om.relpath, x.lineno,
+            res.add("labrea.overload.Overloaded.register:read of the table it replaces is under self._lock", ok, ovm.relpath, x.lineno,
                     f"held: {held_r.get(id(x), [])}" + ("" if ok else " — the read-modify-write is not atomic: a concurrent registration made between the copy and the assignment is lost"), nec)
-    if not any(isinstance(s, (ast.Assign, ast.AugAssign)) and "self.lookup" in ast.unparse(s.targets[0] if isinstance(s, ast.Assign) else s.target) for s in ast.walk(reg)):
-        res.add("labrea.overload.Overloaded.register:updates self.lookup", False, om.relpath, reg.lineno, "register no longer assigns self.lookup", nec)
+    if not any(e.kind == "store" and len(e.args) == 2 and e.args[0].key() == SELF.key() and e.args[1].key() == "Const('lookup')"
+               for p in analyse_method(Ctx(repo), ov, "register") for e in p.events):
+        res.add("labrea.overload.Overloaded.register:updates self.lookup", False, ovm.relpath, reg.lineno, "register no longer assigns self.lookup", nec)
     # the lock is per object and survives pickling by id
-    gl = repo.functions.get(f"labrea.overload.{GET_LOCK}")
+    gl = repo.functions.get(f"{LOCKS_MODULE}.{GET_LOCK}")
     ok = False
     if gl is not None:
         from .interp import analyse_function
         k = astu.param_names(gl.node, skip_self=False)[0]
-        L = f"global<labrea.overload.{LOCKS_TABLE}>"
+        L = f"global<{LOCKS_MODULE}.{LOCKS_TABLE}>"
         gps = analyse_function(Ctx(repo), gl.module, gl.node)
         ok = bool(gps)
         for p in gps:
